@@ -208,6 +208,8 @@ def run_property(prop, a, seed, t0):
             "solver_seconds": round(solver_secs, 3),
             "functions_under_contract": units_info,
             "bounded": [e.get("bounded") for e in extra if e.get("bounded")],
+            "lemmas": [e.get("lemma") for e in extra if e.get("lemma")],
+            "extra_checkers": [e.get("summary", "") for e in extra],
             "not_decided": meta.get("not_decided", []),
             "known_findings": sorted(seen_kf),
             "known_finding_obligations": sorted(f"{a_}::{b_}" for a_, b_ in known_obl),
